@@ -39,6 +39,7 @@ class Runner:
         self.assumptions = []
         self.extra = {}
         self.pool = None
+        self.blocks = None          # code-point blocks symbolic chars range over (None = all of Unicode)
 
     def setup(self):
         self.engine.load(); self.oracle.build()
@@ -46,8 +47,12 @@ class Runner:
 
     def run_query(self, q, confirm=None, key_of=None):
         """confirm(summary, oracle) -> dict(replay=..., confirmed=bool) ; key_of(summary)->str"""
+        plist = q.params if isinstance(q.params, list) else [q.params]
+        if self.blocks is not None:
+            for p_ in plist: p_.setdefault('blocks', self.blocks)
+        q.params = plist
         r = explore.explore(q.module, q.func, q.params, pool=self.pool, max_paths=q.max_paths, budget_s=q.budget_s)
-        rec = {'query': q.name, 'bound': q.bound, 'paths': r.paths, 'solver_checks': r.checks, 'solver_s': round(r.solver_s, 2),
+        rec = {'query': q.name, 'bound': q.bound, 'char_domain': 'all Unicode scalar values' if self.blocks is None else 'code-point blocks ' + ', '.join('U+%04X..U+%04X' % tuple(b) for b in self.blocks), 'paths': r.paths, 'solver_checks': r.checks, 'solver_s': round(r.solver_s, 2),
                'wall_s': round(r.wall_s, 2), 'exhaustive': r.exhaustive, 'statuses': r.statuses}
         self.states += r.paths; self.transitions += r.checks; self.solver_s += r.solver_s
         for s in r.samples:
